@@ -68,6 +68,7 @@ struct vthread {
 	int		pending_sig[MT_MAXSIG];
 	int		sigmask_all;	/* library blocked all signals */
 	int		in_sighandler;
+	int		reaped;		/* joined or detached: its pthread_t may be reused by a later thread */
 };
 
 static struct vthread VT[MT_MAXT];
@@ -420,7 +421,7 @@ int __wrap_pthread_join(pthread_t th, void **ret)
 {
 	int t;
 	for (t = 0; t < MT_MAXT; t++)
-		if (VT[t].state != ST_UNUSED && pthread_equal(VT[t].pt, th))
+		if (VT[t].state != ST_UNUSED && !VT[t].reaped && pthread_equal(VT[t].pt, th))
 			break;
 	if (t == MT_MAXT)
 		return ESRCH;
@@ -431,6 +432,7 @@ int __wrap_pthread_join(pthread_t th, void **ret)
 		block_and_switch();
 	}
 	mt_log("THREAD-JOIN T%d\n", t);
+	VT[t].reaped = 1;
 	return pthread_join(th, ret);
 }
 
@@ -438,8 +440,10 @@ int __wrap_pthread_detach(pthread_t th)
 {
 	int t;
 	for (t = 0; t < MT_MAXT; t++)
-		if (VT[t].state != ST_UNUSED && pthread_equal(VT[t].pt, th))
+		if (VT[t].state != ST_UNUSED && !VT[t].reaped && pthread_equal(VT[t].pt, th)) {
 			mt_log("THREAD-DETACH T%d\n", t);
+			VT[t].reaped = 1;
+		}
 	return pthread_detach(th);
 }
 
